@@ -35,3 +35,32 @@ Theorem C08_drop_after_failed_flush_silent : forall k,
   run_writer key seal k (0, 0) (Some 13) [OpWrite [1; 2; 3]; OpFlush] = (nonce_bytes (0, 0) ++ [19], WErr, WOk).
 Proof. exact (drop_after_failed_flush_silent key seal). Qed.
 End C08.
+
+(* ---- the reading side (CryptoIo.v): CryptoReader over an underlying reader that delivers its data in arbitrary
+   chunks, returns Interrupted at arbitrary calls, and may fail at a byte offset ---- *)
+From SF Require Import CryptoIo CryptoIoProofs.
+
+(* results are independent of chunking: what a consumer issuing any sequence of read_exact requests obtains (every
+   delivered byte string and the first error) is the same for every schedule of chunk sizes and interruptions *)
+Theorem C08_chunking_independent : forall key open k file sched1 sched2 reqs,
+  serve key open k (UR file sched1 None) reqs = serve key open k (UR file sched2 None) reqs.
+Proof. exact serve_chunking_independent. Qed.
+
+(* the loops terminate: no schedule exhausts the fuel of the model *)
+Theorem C08_serve_total : forall key open k file sched reqs, ~ In IoFuel (serve key open k (UR file sched None) reqs).
+Proof. exact serve_no_fuel. Qed.
+
+(* an intact stream is served as the consecutive slices of what was written, under every schedule *)
+Theorem C08_served_intact : forall key open k seal,
+  (forall n c, open k n (seal k n c) = Some c) -> (forall n c, length (seal k n c) = (length c + 16)%nat) ->
+  forall n0 cs reqs sched, (fst n0 < Bytes.U64)%N -> (snd n0 < U32M)%N -> chunks_ok cs ->
+  serve key open k (UR (encrypt_chunks key seal k n0 cs) sched None) reqs = slices (concat cs) reqs.
+Proof. exact serve_intact. Qed.
+
+(* a read fault surfaces as an error: every request completed before it returns exactly what the fault-free run
+   returns at that position, and the run ends there with an error (never different data, never a hang) *)
+Theorem C08_read_fault : forall key open k file sched b reqs, (b < N.of_nat (length file))%N ->
+  let out := serve key open k (UR file sched (Some b)) reqs in
+  (forall x, In x out -> x <> IoFuel) /\
+  (forall i bs, nth_error out i = Some (IoOk bs) -> nth_error (serve key open k (UR file sched None) reqs) i = Some (IoOk bs)).
+Proof. exact fault_is_error. Qed.
